@@ -9,3 +9,5 @@ mod gridmap;
 mod leaves;
 #[cfg(kani)]
 mod connectivity;
+#[cfg(kani)]
+mod cycle;
